@@ -56,6 +56,19 @@ func (x *runner) one(sp sv.Spec, classes ...string) {
 		}
 	}
 	cl = append(cl, fmt.Sprintf("script-tokens/%d", min(len(toks)/5*5, 40)))
+	if len(sp.Pend) > 0 {
+		cl = append(cl, fmt.Sprintf("outstanding/%d", len(sp.Pend)))
+		for _, d := range o.Divs {
+			cl = append(cl, fmt.Sprintf("offered-to-waiter/taken=%v", d.Taken))
+		}
+		for _, ps := range sp.Pend {
+			for _, v := range o.Invs {
+				if id, _ := v.Start.AttrVal("id"); id == ps.ID && v.Start.Local == ps.Kind {
+					cl = append(cl, "colliding-id-handled/"+attrType(v.Start))
+				}
+			}
+		}
+	}
 	x.res.Count(string(b), nontrivial, cl...)
 	if len(x.res.Samples) < 8 && len(o.Invs) > 0 && nontrivial {
 		x.res.Sample(map[string]interface{}{"spec": sp, "returned": o.Ret.String(), "wire": o.Out})
@@ -75,7 +88,113 @@ func (x *runner) one(sp sv.Spec, classes ...string) {
 			}
 		}
 	}
-	x.cf.Add(hx.CoqBytes(sv.EncodeCase(sp, o, x.muxFixed)), sp)
+	x.cf.Add(hx.CoqBytes(sv.EncodeCaseP(sp, o, x.muxFixed)), sp)
+}
+
+func attrType(t sv.STok) string {
+	if v, ok := t.AttrVal("type"); ok {
+		return v
+	}
+	return "(none)"
+}
+
+// ---- outstanding requests ----
+
+var waiterProgs = map[string][]sv.Op{
+	"start-only": {{K: "read", N: 1}},
+	"all":        {{K: "read", N: 1}, {K: "readret", N: 40}},
+	"some":       {{K: "read", N: 3, Stop: true}},
+	"beyond":     {{K: "read", N: 40, Stop: true}, {K: "read", N: 2}},
+}
+
+var waiterKeys = []string{"all", "beyond", "some", "start-only"}
+
+// pending: exhaustive small scope over one outstanding call and one incoming
+// element whose id does or does not collide with it, followed by a second
+// element with the same id (the registration is gone once the response was taken).
+func (x *runner) pending(r *hx.Rand, thorough bool) {
+	type pk struct {
+		kind, space, typ string
+	}
+	pends := []pk{{"iq", "", "get"}, {"iq", "jabber:client", "set"}, {"message", "", "chat"}}
+	if thorough {
+		pends = append(pends, pk{"iq", "jabber:server", "get"}, pk{"presence", "", "probe"})
+	}
+	incoming := []string{"get", "set", "result", "error", "\x00"}
+	names := []string{"iq", "message", "iq xmlns='jabber:server'"}
+	hprogs := map[string][]sv.Op{
+		"nothing": nil,
+		"reply":   {{K: "readret", N: 40}, sv.W(sv.GenWrite("result", "x")...)},
+		"partial": {{K: "read", N: 1}},
+	}
+	hk := []string{"nothing", "partial", "reply"}
+	n := 0
+	for _, p := range pends {
+		for _, cancel := range []bool{false, true} {
+			for _, typ := range incoming {
+				for _, name := range names {
+					for _, id := range []string{"x", "other"} {
+						for _, pl := range []string{"", "<query xmlns='urn:example:q'><a/>t</query>"} {
+							n++
+							ta := ""
+							if typ != "\x00" {
+								ta = " type='" + typ + "'"
+							}
+							el := "<" + name + ta + " id='" + id + "' from='a@example.net/r'"
+							local := strings.Fields(name)[0]
+							if pl == "" {
+								el += "/>"
+							} else {
+								el += ">" + pl + "</" + local + ">"
+							}
+							// the same element again, then a plain request
+							script := el + el + "<iq type='get' id='z'/></stream:stream>"
+							wk := waiterKeys[n%len(waiterKeys)]
+							h := hprogs[hk[n%len(hk)]]
+							ns := "jabber:client"
+							if n%4 == 0 {
+								ns = "jabber:server"
+							}
+							x.one(sv.Spec{NS: ns, Own: sv.OwnFull, Script: script, Progs: [][]sv.Op{h},
+								Pend:  []sv.PendSpec{{ID: "x", Kind: p.kind, Space: p.space, Type: p.typ, Cancel: cancel, Prog: waiterProgs[wk]}},
+								Label: "exh/pending"}, "pending")
+						}
+					}
+				}
+			}
+		}
+	}
+}
+
+// randPend draws 1-2 outstanding calls whose ids are likely to collide with ids of the script.
+func randPend(r *hx.Rand, ns string) []sv.PendSpec {
+	var out []sv.PendSpec
+	ids := []string{"x", "y", "id-1", "0", "q", "other"}
+	used := map[string]bool{}
+	for i, n := 0, 1+r.Intn(2); i < n; i++ {
+		id := pickS(r, ids[:3])
+		if r.Chance(1, 4) {
+			id = pickS(r, ids)
+		}
+		if used[id] {
+			continue
+		}
+		used[id] = true
+		ps := sv.PendSpec{ID: id, Kind: "iq", Type: pickS(r, []string{"get", "set"}), Cancel: r.Chance(1, 5),
+			Prog: waiterProgs[pickS(r, waiterKeys)]}
+		switch r.Intn(8) {
+		case 0:
+			ps.Kind, ps.Type = "message", pickS(r, []string{"chat", "normal", "get"})
+		case 1:
+			ps.Kind, ps.Type = "presence", "probe"
+		case 2, 3:
+			ps.Space = ns
+		case 4:
+			ps.Space = pickS(r, []string{"jabber:client", "jabber:server"})
+		}
+		out = append(out, ps)
+	}
+	return out
 }
 
 func min(a, b int) int {
@@ -239,6 +358,10 @@ func (x *runner) random(r *hx.Rand) {
 				{Type: "set", Space: "urn:xmpp:ping", Local: "ping", Prog: replyProg("x")}}
 		}
 	}
+	if r.Chance(1, 3) {
+		sp.Pend = randPend(r, ns)
+		sp.Label = "random-pending"
+	}
 	x.one(sp, "random")
 }
 
@@ -274,6 +397,7 @@ func main() {
 			x.one(sp, "corpus")
 		}
 		x.exhaustive(r, o.Thorough() || o.Search)
+		x.pending(r, o.Thorough() || o.Search)
 		n := 1500
 		if o.Thorough() {
 			n = 12000
@@ -286,9 +410,10 @@ func main() {
 		}
 	}
 	res.Rule = "inputs: corpus; exhaustive small scope (IQ type x id x from x payload x handler behaviour, with and without the " +
-		"multiplexer and registered handlers); seeded random scripts of 1-4 top-level items (IQs with boundary-biased type/id/from/to/" +
+		"multiplexer and registered handlers); one outstanding SendIQ/SendMessage/SendPresence call (live or with a cancelled context) x incoming " +
+		"element (type, name, colliding or other id, payload) sent twice; seeded random scripts of 1-4 top-level items (IQs with boundary-biased type/id/from/to/" +
 		"payload/name space/qualified attributes, other stanzas, other elements, keep-alives, stream-level constructs, malformed XML) " +
-		"with a drawn handler program per element; distinct = hash of the case; non-trivial = at least one handler invocation on an iq element"
+		"with a drawn handler program per element, a third of them with 1-2 outstanding calls whose ids collide with ids of the script; distinct = hash of the case; non-trivial = at least one handler invocation on an iq element"
 	res.CaseFiles = append(res.CaseFiles, x.cf.Write(o.Out, 400)...)
 	res.Extra["model_cases"] = x.cf.Len()
 	res.Write(o.Out)
@@ -300,6 +425,13 @@ var corpus = []sv.Spec{
 	{NS: "jabber:client", Own: sv.OwnFull, Mode: 1, Script: "<iq type='get' id='x'/><iq type='get' id='y'><query xmlns='urn:example:q'/></iq></stream:stream>", Label: "corpus/mux-empty-iq"},
 	{NS: "jabber:client", Own: sv.OwnFull, Mode: 1, Script: "<iq type='set' id='x' from='a@example.net/r'>  </iq></stream:stream>", Label: "corpus/mux-empty-iq-ws"},
 	{NS: "jabber:client", Own: sv.OwnFull, Mode: 1, Script: "<iq type='result' id='x'/><iq type='error' id='x'/><a/></stream:stream>", Label: "corpus/mux-empty-result"},
+	// an outstanding request of this session and the peer's own request with the same id (seeded change
+	// C07-m1: the lookup of outstanding requests done for every IQ handed the request to the waiter)
+	{NS: "jabber:client", Own: sv.OwnFull, Script: "<iq type='get' id='x' from='a@example.net/r'><query xmlns='urn:example:q'/></iq><iq type='result' id='x'/><iq type='set' id='x'/></stream:stream>",
+		Pend: []sv.PendSpec{{ID: "x", Kind: "iq", Type: "get", Prog: []sv.Op{{K: "read", N: 1}, {K: "readret", N: 40}}}}, Label: "corpus/colliding-request"},
+	{NS: "jabber:server", Own: "example.net", Script: "<iq type='set' id='x'/><iq type='error' id='y'><error type='cancel'/></iq><iq type='result' id='x'>t</iq></stream:stream>",
+		Pend: []sv.PendSpec{{ID: "x", Kind: "iq", Space: "jabber:server", Type: "set", Cancel: true, Prog: []sv.Op{{K: "read", N: 1}}},
+			{ID: "y", Kind: "iq", Type: "get", Prog: []sv.Op{{K: "read", N: 40, Stop: true}, {K: "read", N: 2}}}}, Label: "corpus/colliding-request-cancelled-waiter"},
 	// a handler that returns io.EOF (taken for the peer's close: no reply, Serve returned nil)
 	{NS: "jabber:client", Own: sv.OwnFull, Script: "<iq type='get' id='x'><query xmlns='urn:example:q'/></iq><iq type='get' id='y'/></stream:stream>", Progs: [][]sv.Op{{{K: "read", N: 1}, {K: "ret", Ret: "eof"}}}, Label: "corpus/handler-eof"},
 	// qualified look-alike attributes (x:id / x:type / x:from were taken for the stanza's own)
